@@ -13,6 +13,18 @@ E2 = "explicit-state search over operation histories of the real objects against
 E3 = "bounded-exhaustive input/configuration enumeration against a reference model (depth-1 model checking)"
 
 CHECKS = {
+    "C01": dict(
+        engine="E3-enum",
+        category="exploration",
+        technique=E3 + "; bad line at every stream position and every read partition through the real transports on the virtual loop",
+        text="(1) Every single edit (11 substitution characters, delete, 3 inserts at every position; length/payload/address/code/verb field edits; "
+        "thorough: + all pairs at field boundaries) of one line per distinct frame signature of the repo's logs, through Packet.from_file/from_port/"
+        "from_dict + Message and, batched, through the real FileTransport+ReadProtocol: only PacketInvalid (or ValueError for an empty line) may "
+        "appear, nothing may reach the loop exception handler, exactly the decodable lines are delivered. (2) 22 bad-line classes at every position "
+        "of a stream via dict, log file and serial port. (3) Every <=2-cut (thorough <=3-cut) partition of a serial byte stream, 1-byte and empty reads.",
+        design_ref="4/C01",
+        note="Edit alphabet and base selection are stated in the evidence rule; MQTT JSON envelope handling is not enumerated here.",
+    ),
     "C02": dict(
         engine="E3-enum",
         category="exploration",
